@@ -1081,6 +1081,39 @@ pub fn extras(thorough: bool) -> Vec<Extra> {
             });
         }
     }
+    // (k) INSERT / UPDATE / DELETE with a WITH clause, attached through `.with(clause)` (a WithQuery) and through
+    //     `.with_cte(clause)`: PostgreSQL and SQLite put the clause in front of the statement, MySQL in front of UPDATE /
+    //     DELETE but, for INSERT, in front of the SELECT source
+    for body in ["insert", "update", "delete"] {
+        for api in ["with", "with_cte"] {
+            v.push(Extra {
+                name: format!("dml-with-cte {body} {api}"),
+                real: Box::new(move |d, build| {
+                    let w = WithClause::new().cte(CommonTableExpression::new().query(Query::select().column(a("t1_id")).from(a("t2")).and_where(Expr::col(a("c")).gt(4)).to_owned()).table_name(a("c0")).to_owned()).to_owned();
+                    let sel = Query::select().column(a("t1_id")).from(a("c0")).to_owned();
+                    match (body, api) {
+                        ("insert", "with") => render_any(&Query::insert().into_table(a("t1")).columns([a("a")]).select_from(sel).unwrap().to_owned().with(w), d, build),
+                        ("insert", _) => render_any(Query::insert().into_table(a("t1")).columns([a("a")]).select_from(sel).unwrap().with_cte(w), d, build),
+                        ("update", "with") => render_any(&Query::update().table(a("t1")).value(a("a"), 5).and_where(Expr::col(a("id")).in_subquery(sel)).to_owned().with(w), d, build),
+                        ("update", _) => render_any(Query::update().table(a("t1")).value(a("a"), 5).and_where(Expr::col(a("id")).in_subquery(sel)).with_cte(w), d, build),
+                        (_, "with") => render_any(&Query::delete().from_table(a("t1")).and_where(Expr::col(a("id")).in_subquery(sel)).to_owned().with(w), d, build),
+                        _ => render_any(Query::delete().from_table(a("t1")).and_where(Expr::col(a("id")).in_subquery(sel)).with_cte(w), d, build),
+                    }
+                }),
+                reference: Box::new(move |d, build| {
+                    let q = |n: &str| qd(d, n);
+                    let with = format!("WITH {} AS (SELECT {} FROM {} WHERE {} > {})", q("c0"), q("t1_id"), q("t2"), q("c"), ph(d, build, 1, "4"));
+                    let sel = format!("SELECT {} FROM {}", q("t1_id"), q("c0"));
+                    Some(match body {
+                        "insert" if d == Dialect::Mysql => format!("INSERT INTO {} ({}) {with} {sel}", q("t1"), q("a")),
+                        "insert" => format!("{with} INSERT INTO {} ({}) {sel}", q("t1"), q("a")),
+                        "update" => format!("{with} UPDATE {} SET {} = {} WHERE {} IN ({sel})", q("t1"), q("a"), ph(d, build, 2, "5"), q("id")),
+                        _ => format!("{with} DELETE FROM {} WHERE {} IN ({sel})", q("t1"), q("id")),
+                    })
+                }),
+            });
+        }
+    }
     // (j) ORDER BY forms: direction / FIELD list x NULLS ordering x statement kind (SELECT, window ORDER BY, UPDATE, DELETE),
     //     one and two keys
     for ctx in ["select", "window", "update", "delete"] {
